@@ -309,6 +309,18 @@ def alias_check(sources, res, opd, ctx, opname):
             res.append(M.build_index(o, 0))
             if not verify("append"):
                 return
+        # entry-wise set algebra on the result: drop the first row of every entry that has two or more (an in-place compaction would
+        # write into a buffer shared with a source), then give those rows back
+        for k2 in sorted(dict.keys(res), key=repr):
+            a = dict.get(res, k2)
+            if a is not None and len(a) >= 2:
+                first = numpy.array([int(a[0])], dtype=U32)
+                res.difference_update({k2: first})
+                if not verify("difference_update"):
+                    return
+                res.union_update({k2: first})
+                if not verify("union_update"):
+                    return
     except Exception as e:  # noqa
         ctx.v("C06", "%s:alias-check-raised" % opname, opd, "mutating the result raised %r" % (e,))
         return
@@ -638,7 +650,7 @@ def expand(key, cfg, reverse=False, prune=None, focus=None):
     return ctx
 
 
-def _touch(s):
+def _touch(s, save=True):
     """Call every reading method once (whatever an index memoises is now in place)."""
     for _ in s.slices1d() if len(s.shape) > 1 else ():
         pass
@@ -651,13 +663,31 @@ def _touch(s):
         s.common_rowids(*hc)
     from catii.ccubes import ccube
 
+    if save and len(s.shape) <= 2 and s.common >= 0 and all(k[0] >= 0 for k in dict.keys(s)):
+        import tempfile
+
+        from catii.indxio import IndxIO as _io
+
+        with tempfile.TemporaryFile(dir=core.scratch_dir()) as f:
+            _io.save(f, s, s.common, s.rowid_dtype)
+
     if all(k[0] >= 0 for k in dict.keys(s)) and s.common >= 0:
+        cube = ccube([s], interacting_shape=(4,))
+        cube.count()
         ccube([s]).count()
+        return cube
+    return None
 
 
-def _reobserve(s, exp, opd, ctx, opname):
+def _reobserve(s, exp, opd, ctx, opname, old_cube=None, save=True):
     """After an in-place change of an index whose readers had all been used before: every reader must show the NEW content."""
     shape = tuple(s.shape)
+    if old_cube is not None and exp.size and all(0 <= int(v) < 4 for v in exp.flat) and 0 <= s.common < 4:
+        # the cube object built BEFORE the change holds the index, not a copy of it: asked again it must count the new content
+        got = numpy.asarray(old_cube.count(return_missing_as=(0, False))[0])
+        want = numpy.stack([(exp == v).sum(axis=0) for v in range(4)], axis=-1) if exp.ndim > 1 else numpy.array([(exp == v).sum() for v in range(4)])
+        if got.tolist() != want.tolist():
+            ctx.v("C06", opname + ":stale:cube-built-before", opd, "the count cube built before the change gives %r afterwards, expected %r" % (got.tolist(), want.tolist()))
     if s.to_array(dtype=int).tolist() != exp.tolist():
         ctx.v("C06", opname + ":stale:to_array", opd, "to_array after the change = %r, expected %r" % (s.to_array(dtype=int).tolist(), exp.tolist()))
     if len(shape) > 1:
@@ -672,6 +702,26 @@ def _reobserve(s, exp, opd, ctx, opname):
         if cr != want:
             ctx.v("C06", opname + ":stale:common_rowids", opd, "common_rowids%r after the change = %r, expected %r" % (hc, cr, want))
     present = set(int(x) for x in exp.flat)
+    if exp.size and all(v >= 0 for v in present | {s.common}):
+        from catii.ccubes import ccube as _cc
+
+        got_shape = tuple(int(x) for x in _cc([s]).interacting_shape)
+        if got_shape != (max(present | {s.common}) + 1,):
+            ctx.v("C06", opname + ":stale:inferred-cube-shape", opd, "a cube built over the changed index infers shape %r, expected %r" % (got_shape, (max(present | {s.common}) + 1,)))
+        if save and len(shape) <= 2:
+            from catii.indxio import IndxIO as _io
+
+            ctx.seq = getattr(ctx, "seq", 0) + 1
+            path = os.path.join(core.scratch_dir(), "hr-%d-%d.indx" % (os.getpid(), ctx.seq))
+            with open(path, "wb") as f:
+                _io.save(f, s, s.common, s.rowid_dtype)
+            with open(path, "rb") as f:
+                ents, cm, dt = _io.load(f)
+                ents = {k2: numpy.array(v2, copy=True) for k2, v2 in ents.items()}
+            os.unlink(path)
+            back = type(s)(ents, cm, shape)
+            if M.read_dense(back).tolist() != exp.tolist():
+                ctx.v("C06", opname + ":stale:indx-save", opd, "saving the changed index and loading it back gives %r, expected %r" % (M.read_dense(back).tolist(), exp.tolist()))
     if set(s.abscissae) != present:
         ctx.v("C06", opname + ":stale:abscissae", opd, "abscissae after the change %r, values present %r" % (sorted(s.abscissae), sorted(present)))
     if exp.size and abs(s.sparsity - 100.0 * int((exp == s.common).sum()) / exp.size) > 1e-9:
@@ -731,9 +781,9 @@ def _expand_observe_mutate_observe(key, d, fresh, ctx, R, cols):
             od = opd if layout == "built" else dict(opd, layout=layout)
             try:
                 s = make(layout)
-                _touch(s)
+                old_cube = _touch(s, save=layout == "built")
                 mutate(s)
-                _reobserve(s, exp, od, ctx, opname)
+                _reobserve(s, exp, od, ctx, opname, old_cube if exp.shape[0] == d.shape[0] else None, save=layout == "built")
                 if layout != "built":
                     wellformed(s, exp, od, ctx, opname)
             except Exception as e:  # noqa
@@ -754,6 +804,43 @@ def _expand_observe_mutate_observe(key, d, fresh, ctx, R, cols):
             exp[cell] = v
             ent = {(v,) + tuple(cell[1:]): numpy.array([cell[0]], dtype=U32)}
             run({"op": "update", "assign": [[list(cell), v]], "after_reading": True}, "update", (lambda s, ent=ent: s.update(ent)), exp)
+    # a count-preserving swap inside one column: one row leaves the common value while another returns to it
+    for hc in cells_of(shape[1:]):
+        col = d[(slice(None),) + hc]
+        ins = [r for r in range(nrows) if col[r] == common]
+        outs = [r for r in range(nrows) if col[r] != common]
+        for r1 in ins[:2]:
+            for r2 in outs[:2]:
+                v = int(col[r2])
+                exp = d.copy()
+                exp[(r1,) + hc] = v
+                exp[(r2,) + hc] = common
+                ent = {(common,) + hc: numpy.array([r2], dtype=U32), (v,) + hc: numpy.array([r1], dtype=U32)}
+                for then in (None, v):
+                    def mut(s, ent=ent, then=then):
+                        s.update(ent)
+                        if then is not None:
+                            s.shift_common(then)
+                    run({"op": "update-swap", "column": list(hc), "to_value": r1, "to_common": r2, "then_shift_common": then, "after_reading": True}, "update", mut, exp)
+    # entry-wise set algebra after reading: a whole entry removed / its first row removed / rows holding the common value given a value
+    for hc in cells_of(shape[1:]):
+        col = d[(slice(None),) + hc]
+        for v in sorted(set(int(x) for x in col.flat) - {common}):
+            rows = [r for r in range(nrows) if col[r] == v]
+            for sub in ([rows] if len(rows) == 1 else [rows, rows[:1]]):
+                exp = d.copy()
+                exp[(sub,) + hc] = common
+                ent = {(v,) + hc: numpy.array(sub, dtype=U32)}
+                run({"op": "difference_update", "entry": [v] + list(hc), "rows": sub, "after_reading": True}, "difference_update", (lambda s, ent=ent: s.difference_update(ent)), exp)
+        crow = [r for r in range(nrows) if col[r] == common]
+        if crow:
+            for v in (1, 2):
+                if v == common:
+                    continue
+                exp = d.copy()
+                exp[(crow[:1],) + hc] = v
+                ent = {(v,) + hc: numpy.array(crow[:1], dtype=U32)}
+                run({"op": "union_update", "entry": [v] + list(hc), "rows": crow[:1], "after_reading": True}, "union_update", (lambda s, ent=ent: s.union_update(ent)), exp)
 
 
 def _expand_slicing(key, d, fresh, ctx):
